@@ -1,4 +1,4 @@
-import BreezyVerif.Lemmas.C03
+import BreezyVerif.Lemmas.C03Seq
 /-
 C03 — theorems.  All repositories, histories (any DAG or even cyclic parent
 map, any number of ghosts), requested revisions and flags are universally
@@ -254,8 +254,6 @@ def oSrc : Repo :=
              (4, [⟨1, 1, 4, 400⟩, ⟨2, 2, 1, 300⟩])]
     texts := [((1, 1), 100), ((2, 1), 300), ((1, 4), 400)] }
 
-def emptyRepo : Repo := ⟨[], [], []⟩
-
 /-- The defect found at the pinned commit (`Exclusion.asFound`): fetching into an
 EMPTY (hence closed, complete) target from a source that holds the inventory of
 a ghost parent gives revisions without their texts; with the repaired exclusion
@@ -293,5 +291,239 @@ example : (fetchResult .asFound true false eSrc eTgt 4).bind (fun t' => testamen
   rfl
 
 example : fetchError .asFound true false eSrc eTgt 9 = some .noSuchRevision := by decide +kernel
+
+/-! ## histories of any length: the batched walk (`_walk_to_common_revisions_batch_size = n ≥ 1`) -/
+
+/-- the batched walk always terminates within its fuel -/
+theorem walkB_total (g : PMap) (has : Rev → Bool) (n : Nat) (hn : 0 < n) (start : Rev) :
+    (walkB g has n start).isSome = true := by
+  obtain ⟨w, hw, _⟩ := walkB_some (g := g) (has := has) (start := start) hn
+  simp [hw]
+
+/-- whatever the batch size, the search returns only source-present ancestors the target lacks -/
+theorem missingB_sound (n : Nat) (hn : 0 < n) (fg : Bool) (src tgt : Repo) (rev k : Rev)
+    (h : k ∈ missingB n fg src tgt rev) : k ∈ anc src rev ∧ hasRev tgt k = false :=
+  ⟨missingB_sub_anc hn h, missingB_not_in_target hn h⟩
+
+/-- whatever the batch size, an ancestor that is not returned is held by the target
+(`find_ghosts`) or lies behind (or is) a revision of the ancestry that the target holds -/
+theorem missingB_behind (n : Nat) (hn : 0 < n) (fg : Bool) (src tgt : Repo) (rev k : Rev) (hk : k ∈ anc src rev) :
+    k ∈ missingB n fg src tgt rev ∨ (fg = true ∧ hasRev tgt k = true) ∨
+      (fg = false ∧ Reach (graph src) [] ((anc src rev).filter (hasRev tgt)) k) :=
+  anc_casesB hn hk
+
+/-- for an ancestry-closed target every batch size returns exactly the source ancestry the target lacks -/
+theorem missingB_closed (n : Nat) (hn : 0 < n) (src tgt : Repo) (hc : closed tgt src = true) (fg : Bool) (rev k : Rev) :
+    k ∈ missingB n fg src tgt rev ↔ k ∈ anc src rev ∧ hasRev tgt k = false := by
+  constructor
+  · exact missingB_sound n hn fg src tgt rev k
+  · rintro ⟨hk, ht⟩
+    rcases anc_casesB_closed hn (fg := fg) (Or.inr hc) hk with h | h
+    · exact h
+    · rw [ht] at h; cases h
+
+/-- a search for a revision the target holds returns nothing, whatever the batch size -/
+theorem missingB_held_nil (n : Nat) (hn : 0 < n) (src tgt : Repo) (rev : Rev) (ht : hasRev tgt rev = true) :
+    missingB n false src tgt rev = [] := missingB_nil_of_held hn ht
+
+/-- source 1 ← 4, 1 ← 5, {5, 4} ← 6; the target holds 5 without its parent 1 -/
+def bSrc : Repo :=
+  { revs := [(1, ⟨[], 10⟩), (4, ⟨[1], 40⟩), (5, ⟨[1], 50⟩), (6, ⟨[5, 4], 60⟩)]
+    invs := [(1, [⟨1, 1, 1, 100⟩]), (4, [⟨1, 1, 4, 400⟩]), (5, [⟨1, 1, 5, 500⟩]), (6, [⟨1, 1, 6, 600⟩])]
+    texts := [((1, 1), 100), ((1, 4), 400), ((1, 5), 500), ((1, 6), 600)] }
+
+def bTgt : Repo :=
+  { revs := [(5, ⟨[1], 50⟩)], invs := [(5, [⟨1, 1, 5, 500⟩])], texts := [((1, 5), 500)] }
+
+/-- With more than one batch the result depends on the layering: for a target
+that is not ancestry-closed a small batch fills the ghost (revision 1 is reached
+through 4 after 5 was stopped), one big batch does not (1 had been seen when 5
+was checked).  Both answers satisfy `missingB_sound` / `missingB_behind`. -/
+theorem missingB_batch_matters_witness :
+    closed bTgt bSrc = false ∧
+    missingB 1 false bSrc bTgt 6 = [6, 4, 1] ∧ missingB 50 false bSrc bTgt 6 = [6, 4] ∧
+    missing false bSrc bTgt 6 = [6, 4] := by
+  decide +kernel
+
+/-- `fetchB` (either kind of copy) never removes or changes anything the target had -/
+theorem fetchB_monotone (n : Nat) (s : StreamKind) (ext fg : Bool) (src tgt t' : Repo) (rev : Rev)
+    (h : fetchB n s ext fg src tgt rev = .ok t') :
+    (∀ k v, get tgt.revs k = some v → get t'.revs k = some v) ∧
+    (∀ k v, get tgt.invs k = some v → get t'.invs k = some v) ∧
+    (∀ k v, get tgt.texts k = some v → get t'.texts k = some v) :=
+  fetchWith_monotone (fetchB_ok h).2
+
+/-- completeness for every history length, batch size and kind of copy -/
+theorem fetchB_complete (n : Nat) (hn : 0 < n) (s : StreamKind) (ext fg : Bool) (src tgt t' : Repo) (rev : Rev)
+    (hc : fg = true ∨ closed tgt src = true)
+    (h : fetchB n s ext fg src tgt rev = .ok t') :
+    (hasRev src rev = true → hasRev t' rev = true) ∧ ∀ k ∈ anc src rev, hasRev t' k = true := by
+  have key := fetchWith_complete (searchOK_missingB hn fg src tgt rev) hc (fetchB_ok h).2
+  exact ⟨fun hs => key rev (rev_mem_anc hs), key⟩
+
+/-- faithfulness of records for every history length, batch size and kind of copy -/
+theorem fetchB_faithful (n : Nat) (hn : 0 < n) (s : StreamKind) (ext fg : Bool) (src tgt t' : Repo) (rev : Rev)
+    (ha : agree src tgt = true) (hcomp : complete tgt = true)
+    (h : fetchB n s ext fg src tgt rev = .ok t') (k : Rev) (hk : k ∈ anc src rev)
+    (hkt : hasRev t' k = true) :
+    get t'.revs k = get src.revs k ∧ ∀ i, get src.invs k = some i → get t'.invs k = some i :=
+  fetchWith_faithful (searchOK_missingB hn fg src tgt rev) ha hcomp (fetchB_ok h).2 k hk hkt
+
+/-- … hence equal testament data -/
+theorem fetchB_testament (n : Nat) (hn : 0 < n) (s : StreamKind) (ext fg : Bool) (src tgt t' : Repo) (rev : Rev)
+    (ha : agree src tgt = true) (hcomp : complete tgt = true)
+    (h : fetchB n s ext fg src tgt rev = .ok t') (k : Rev) (hk : k ∈ anc src rev)
+    (hkt : hasRev t' k = true) (hsi : (get src.invs k).isSome = true) :
+    testament t' k = testament src k := by
+  obtain ⟨h1, h2⟩ := fetchB_faithful n hn s ext fg src tgt t' rev ha hcomp h k hk hkt
+  cases hi : get src.invs k with
+  | none => simp [hi] at hsi
+  | some i =>
+    unfold testament
+    rw [h1, h2 i hi, hi]
+
+/-- faithfulness of tree content for every history length and batch size, for the
+stream sources (`filtered x`) and for `InterDifferingSerializer` (`perRevision`,
+acyclic histories: `kindOK`) -/
+theorem fetchB_texts_faithful (n : Nat) (hn : 0 < n) (s : StreamKind) (ext fg : Bool) (src tgt t' : Repo) (rev : Rev)
+    (hc : fg = true ∨ closed tgt src = true) (ha : agree src tgt = true) (hcomp : complete tgt = true)
+    (d : Rev → Nat) (hx : kindOK s d src = true)
+    (h : fetchB n s ext fg src tgt rev = .ok t') (k : Rev) (hk : k ∈ anc src rev)
+    (i : Inv) (hi : get src.invs k = some i) (e : Entry) (he : e ∈ i) :
+    ∃ c, get t'.texts e.key = some c ∧ ∀ c', get src.texts e.key = some c' → c' = c :=
+  have hok := searchOK_missingB hn fg src tgt rev
+  fetchWith_texts_faithful hok (streamOK_kind hok hc ha hcomp d hx) hc ha hcomp (fetchB_ok h).2 k hk i hi e he
+
+/-- consistency for every history length, batch size and kind of copy -/
+theorem fetchB_consistent (n : Nat) (hn : 0 < n) (s : StreamKind) (ext fg : Bool) (src tgt t' : Repo) (rev : Rev)
+    (hc : fg = true ∨ closed tgt src = true) (ha : agree src tgt = true) (hcomp : complete tgt = true)
+    (d : Rev → Nat) (hx : kindOK s d src = true)
+    (h : fetchB n s ext fg src tgt rev = .ok t') : complete t' = true :=
+  have hok := searchOK_missingB hn fg src tgt rev
+  fetchWith_consistent (streamOK_kind hok hc ha hcomp d hx) ha hcomp (fetchB_ok h).2
+
+/-- source 1 ← 2 ← 3 where 2 ← 3 is also a cycle 3 ← 2: with a cyclic parent map
+the per-revision selection sends neither copy of a text two revisions share -/
+def cSrc : Repo :=
+  { revs := [(2, ⟨[3], 20⟩), (3, ⟨[2], 30⟩)]
+    invs := [(2, [⟨1, 1, 2, 200⟩]), (3, [⟨1, 1, 2, 200⟩])]
+    texts := [((1, 2), 200)] }
+
+/-- why `perRevision` needs an acyclic history (the stream sources do not): in a
+cyclic parent map every revision's entry is "already in a parent", nothing is
+sent, and the copied revisions lack their text -/
+theorem perRevision_cyclic_witness :
+    closed emptyRepo cSrc = true ∧ noOrphanInv cSrc = true ∧ complete cSrc = true ∧
+    (match fetchB 50 .perRevision false false cSrc emptyRepo 3 with
+      | .ok t' => (hasRev t' 3, get t'.texts (1, 2), complete t') | .error _ => (false, none, true)) =
+      (true, none, false) ∧
+    (match fetchB 50 (.filtered .asFound) false false cSrc emptyRepo 3 with
+      | .ok t' => complete t' | .error _ => false) = true := by
+  decide +kernel
+
+/-- Idempotence for every batch size: once the requested revision has arrived, a
+second identical fetch finds nothing missing and changes nothing.  (That the
+revision arrives follows from `fetchB_complete` for closed targets and from
+`fetchB_idempotent_acyclic` for every acyclic history; in a cyclic parent map a
+target holding a "descendant" of `rev` can make the walk stop before copying it.) -/
+theorem fetchB_idempotent (n : Nat) (hn : 0 < n) (s : StreamKind) (ext fg : Bool) (src tgt t' : Repo) (rev : Rev)
+    (h : fetchB n s ext fg src tgt rev = .ok t') (hrev : hasRev src rev = true → hasRev t' rev = true) :
+    missingB n fg src t' rev = [] ∧ fetchB n s ext fg src t' rev = .ok t' :=
+  fetchB_again hn h hrev
+
+/-- for every acyclic history (`d` = any numbering decreasing towards the parents)
+and every target: the requested revision arrives and a second fetch is a no-op -/
+theorem fetchB_idempotent_acyclic (n : Nat) (hn : 0 < n) (s : StreamKind) (ext fg : Bool) (src tgt t' : Repo)
+    (rev : Rev) (d : Rev → Nat) (hacyc : acyclicBy d src = true)
+    (h : fetchB n s ext fg src tgt rev = .ok t') :
+    (hasRev src rev = true → hasRev t' rev = true) ∧
+    missingB n fg src t' rev = [] ∧ fetchB n s ext fg src t' rev = .ok t' :=
+  ⟨fetchB_rev_arrives hn d hacyc h, fetchB_again hn h (fetchB_rev_arrives hn d hacyc h)⟩
+
+/-! ## the hypotheses are invariants: sequences of fetches -/
+
+/-- a fetch preserves ancestry-closure of the target w.r.t. its source -/
+theorem fetchB_preserves_closed (n : Nat) (hn : 0 < n) (s : StreamKind) (ext fg : Bool) (src tgt t' : Repo) (rev : Rev)
+    (hd : distinctRevs src = true) (hc : closed tgt src = true)
+    (h : fetchB n s ext fg src tgt rev = .ok t') : closed t' src = true :=
+  fetchWith_closed (searchOK_missingB hn fg src tgt rev) hd hc (fetchB_ok h).2
+
+/-- a fetch preserves "ids identify content" -/
+theorem fetchB_preserves_agree (n : Nat) (s : StreamKind) (ext fg : Bool) (src tgt t' : Repo) (rev : Rev)
+    (ha : agree src tgt = true) (h : fetchB n s ext fg src tgt rev = .ok t') : agree src t' = true :=
+  fetchWith_agree ha (fetchB_ok h).2
+
+/-- the same two facts for the one-batch model `fetch` -/
+theorem fetch_preserves_closed (x : Exclusion) (ext fg : Bool) (src tgt t' : Repo) (rev : Rev)
+    (hd : distinctRevs src = true) (hc : closed tgt src = true)
+    (h : fetch x ext fg src tgt rev = .ok t') : closed t' src = true :=
+  fetchWith_closed (searchOK_missing fg src tgt rev) hd hc (fetch_ok' h)
+
+theorem fetch_preserves_agree (x : Exclusion) (ext fg : Bool) (src tgt t' : Repo) (rev : Rev)
+    (ha : agree src tgt = true) (h : fetch x ext fg src tgt rev = .ok t') : agree src t' = true :=
+  fetchWith_agree ha (fetch_ok' h)
+
+/-- Closure, agreement and completeness are invariants of any sequence of fetches
+`(rev, find_ghosts)` from one source (failed fetches included), and nothing the
+target held is ever removed or changed. -/
+theorem fetchSeq_invariant (n : Nat) (hn : 0 < n) (s : StreamKind) (ext : Bool) (src t : Repo)
+    (d : Rev → Nat) (hx : kindOK s d src = true) (hd : distinctRevs src = true)
+    (hc : closed t src = true) (ha : agree src t = true) (hcomp : complete t = true)
+    (ops : List (Rev × Bool)) :
+    closed (fetchSeq n s ext src t ops) src = true ∧ agree src (fetchSeq n s ext src t ops) = true ∧
+    complete (fetchSeq n s ext src t ops) = true ∧
+    (∀ k v, get t.revs k = some v → get (fetchSeq n s ext src t ops).revs k = some v) :=
+  have h := fetchSeq_inv hn d hx hd ops t ⟨hc, ha, hcomp⟩
+  ⟨h.1, h.2.1, h.2.2, (fetchSeq_monotone n s ext src ops t).1⟩
+
+/-- End to end, without any hypothesis on the target: a repository filled from
+empty by ANY sequence of fetches (any revisions, any `find_ghosts` flags, any
+batch size, any history length, either kind of copy) from a consistent source
+holds, for every requested revision the source has, the revision and every
+source-present ancestor with the source's revision record, the source's
+inventory, and every text the inventory names, equal to the source's text. -/
+theorem fetchSeq_from_empty (n : Nat) (hn : 0 < n) (s : StreamKind) (ext : Bool) (src : Repo)
+    (d : Rev → Nat) (hx : kindOK s d src = true) (hd : distinctRevs src = true)
+    (hcs : complete src = true) (ops : List (Rev × Bool))
+    (rev : Rev) (fg : Bool) (hop : (rev, fg) ∈ ops) (hs : hasRev src rev = true) (k : Rev) (hk : k ∈ anc src rev) :
+    get (fetchSeq n s ext src emptyRepo ops).revs k = get src.revs k ∧ (get src.revs k).isSome = true ∧
+    ∀ i, get src.invs k = some i → get (fetchSeq n s ext src emptyRepo ops).invs k = some i ∧
+      ∀ e ∈ i, ∃ c, get (fetchSeq n s ext src emptyRepo ops).texts e.key = some c ∧
+        ∀ c', get src.texts e.key = some c' → c' = c :=
+  fetchSeq_holds hn d hx hd hcs ops emptyRepo (seqInv_empty src) (rev, fg) hop hs k hk
+
+/-! ## per-file history -/
+
+/-- Per-file history: after a fetch, the text of every entry of every inventory
+of the source ancestry has, in the target, the per-file parents it has in the source. -/
+theorem fetchBH_perfile_faithful (n : Nat) (hn : 0 < n) (s : StreamKind) (ext fg : Bool) (src tgt t' : RepoH) (rev : Rev)
+    (hc : fg = true ∨ closed tgt.repo src.repo = true) (ha : agree src.repo tgt.repo = true)
+    (hcomp : complete tgt.repo = true) (d : Rev → Nat) (hx : kindOK s d src.repo = true)
+    (hap : agreeOn src.tpar tgt.tpar = true) (htp : textsHaveParents tgt = true) (hsp : textsHaveParents src = true)
+    (h : fetchBH n s ext fg src tgt rev = .ok t') (k : Rev) (hk : k ∈ anc src.repo rev)
+    (i : Inv) (hi : get src.repo.invs k = some i) (e : Entry) (he : e ∈ i) :
+    ∃ ps, get t'.tpar e.key = some ps ∧ ∀ ps', get src.tpar e.key = some ps' → ps' = ps :=
+  have hok := searchOK_missingB hn fg src.repo tgt.repo rev
+  fetchWithH_perfile hok (streamOK_kind hok hc ha hcomp d hx) hc ha hcomp hap htp hsp (fetchBH_ok h) k hk i hi e he
+
+/-! ### non-vacuity of the new hypotheses -/
+
+def eSrcH : RepoH := ⟨eSrc, [((1, 1), []), ((1, 2), [1]), ((2, 3), [])]⟩
+def eTgtH : RepoH := ⟨eTgt, [((1, 1), []), ((1, 2), [1])]⟩
+
+example : distinctRevs eSrc = true ∧ complete eSrc = true ∧ acyclicBy (fun k => if k = 9 then 0 else k) eSrc = true ∧
+    kindOK .perRevision (fun k => if k = 9 then 0 else k) eSrc = true ∧ kindOK (.filtered .asFound) id eSrc = true ∧
+    agreeOn eSrcH.tpar eTgtH.tpar = true ∧ textsHaveParents eTgtH = true ∧ textsHaveParents eSrcH = true ∧
+    missingB 2 false eSrc eTgt 4 = [4, 3] ∧
+    (match fetchBH 2 (.filtered .asFound) true false eSrcH eTgtH 4 with
+      | .ok t' => (complete t'.repo, get t'.tpar (2, 3), get t'.tpar (1, 2))
+      | .error _ => (false, none, none)) = (true, some [], some [1]) := by
+  decide +kernel
+
+/-- a sequence from empty: fetch 2, a revision nobody has, then 4 with `find_ghosts` -/
+example : (fetchSeq 2 (.filtered .asFound) true eSrc emptyRepo [(2, false), (7, false), (4, true)]).revs.map (·.1) = [2, 1, 4, 3] ∧
+    complete (fetchSeq 2 (.filtered .asFound) true eSrc emptyRepo [(2, false), (7, false), (4, true)]) = true ∧
+    complete (fetchSeq 1 .perRevision false eSrc emptyRepo [(2, false), (7, false), (4, true)]) = true := by
+  decide +kernel
 
 end BreezyVerif.C03
